@@ -98,7 +98,7 @@ def exhaustive_cases(ctx, limit):
 
 def run(ctx):
     g = qgen.Gen(ctx.rng)
-    n = 4000 if ctx.tier == 'quick' else 120000
+    n = 4000 if ctx.tier == 'quick' else 500000
     cases = [gen_case(ctx, g) for _ in range(n)]
     cases += exhaustive_cases(ctx, 2500 if ctx.tier == 'quick' else None)
     ctx.rule = ('aggregate queries: 1-4 items mixing the 9 aggregates (upper/capitalised/lower spellings, COUNT(*), expression arguments), group keys and constants; '
